@@ -144,6 +144,10 @@ def run_property(pid: str, tier: str, only: Optional[str], jobs: int) -> int:
         return 3
     src = open(harness_file).read()
     known = load_known(pid)
+    if only is None and os.path.isdir(paths.REPLAYS):  # replay files are rewritten by every full run
+        for fn_ in os.listdir(paths.REPLAYS):
+            if fn_.startswith(pid + "-"):
+                os.unlink(os.path.join(paths.REPLAYS, fn_))
     os.makedirs(paths.WORK, exist_ok=True)
     work = tempfile.mkdtemp(prefix=f"{pid}-{tier}-", dir=paths.WORK)
     joblist: List[Dict[str, Any]] = []
